@@ -283,7 +283,7 @@ def gen_mutants(ck, name, b):
         yield ("cutout", b[:i] + b[j:])
 
 
-def run_batches(ck, inputs):
+def run_batches(ck, inputs, mode="open", secs=None):
     """inputs: list of (id, bytes).  Returns dict id -> outcome string."""
     d = os.path.join(ck.dir, "batches")
     os.makedirs(d, exist_ok=True)
@@ -306,8 +306,8 @@ def run_batches(ck, inputs):
         open(of, "w").close()
         died = None
         try:
-            p = subprocess.run([sys.executable, "-m", "vh.c06_worker", bf, of, str(RLIMIT_MB), str(PER_INPUT_S)],
-                               capture_output=True, text=True, env=env, timeout=PER_INPUT_S * 4 + len(items) * 0.5 + 120)
+            p = subprocess.run([sys.executable, "-m", "vh.c06_worker", bf, of, str(RLIMIT_MB), str(secs or PER_INPUT_S), mode],
+                               capture_output=True, text=True, env=env, timeout=(secs or PER_INPUT_S) * 4 + len(items) * 0.5 + 120)
             if p.returncode != 0:
                 died = "CRASH rc=%d %s" % (p.returncode, (p.stderr or "")[-200:].replace("\n", " "))
         except subprocess.TimeoutExpired:
@@ -436,6 +436,31 @@ def run():
     res = run_batches(ck, inputs)
     judge(inputs, meta, res)
     total += len(inputs)
+    # (d) adversarial text-engine-data blobs (what opening a type layer parses): long runs of every token piece,
+    #      alone and in pairs, with and without a terminator -- super-linear scanning shows as HANG
+    pieces = [b"\\", b"(", b")", b"\\)", b"\\(", b"\\\\", b"<<", b">>", b"[", b"]", b"/a", b" ", b"\n", b"1", b".", b"-", b"\xfe\xff", b"\x00", b"true"]
+    heads = [b"(\xfe\xff", b"<< /a (\xfe\xff", b"<< /a [ ", b"", b"<< /a "]
+    tails = [b"", b")", b") >>", b" ] >>", b">>"]
+    inputs, meta = [], {}
+    for k in ((40, 400, 4000) if ck.tier != "thorough" else (40, 90, 400, 4000, 40000)):
+        for hd in heads:
+            for tl in tails:
+                for x in pieces:
+                    inputs.append((len(inputs), hd + x * k + tl))
+                    meta[len(inputs) - 1] = ("engine-data", "run:%r*%d" % (x, k))
+                for x, y in ((b"\\", b"("), (b"\\", b")"), (b"(", b")"), (b"<<", b">>"), (b"[", b"]"), (b"1", b"."), (b"\\", b"a")):
+                    inputs.append((len(inputs), hd + (x + y) * k + tl))
+                    meta[len(inputs) - 1] = ("engine-data", "alt:%r%r*%d" % (x, y, k))
+    res = run_batches(ck, inputs, mode="engine", secs=10)
+    for cid, b in inputs:
+        t, r = res.get(cid, (0.0, "WORKER-FAILED no outcome recorded"))
+        cls = r.split()[0]
+        ck.count("engine:" + cls)
+        slow = max(slow, t)
+        if cls in ("HANG", "MEMORY", "CRASH", "WORKER-FAILED") or t > 5:
+            ck.fail("engine-data-" + cls.lower() if cls != "ok" else "engine-data-slow", {"seed": "engine-data", "mutation": meta[cid][1], "bytes": b},
+                    "%s after %.1f s" % (r, t), "parsed or rejected in time linear in its %d bytes" % len(b), stream="engine")
+    total += len(inputs)
     ck.evals += total
     ck.assumptions += [
         "interpreter crashes, wall-clock time and memory cannot be exhibited by a Gallina model: they are supervised at run time "
@@ -456,6 +481,9 @@ def replay(path):
     else:
         b = bytes.fromhex(inp["bytes"]["hex"])
         ck = Check("C06")
-        print(run_batches(ck, [(0, b)]))
+        if fl.get("stream") == "engine":
+            print(run_batches(ck, [(0, b)], mode="engine", secs=10))
+        else:
+            print(run_batches(ck, [(0, b)]))
     print("expected:", fl["expected"], "| kind:", fl["kind"])
     return 1
